@@ -361,6 +361,11 @@ func (g *gen) probe() {
 }
 
 func genHistory(r *hx.Rng, tier string, i int) []hx.Zs {
+	if i%12 == 7 {
+		// an entity announced again without (all of) its features, then torn down
+		count("entities-announced-again-then-torn-down")
+		return stack.Reannounce(r)
+	}
 	g := &gen{r: r, ctr: map[int64]int64{}, nmRefs: map[int64]bool{}, asked: map[string]bool{}, gen: map[int64]int{}, bound: map[string]bool{}}
 
 	// ---- local tree: servers with functions, client features for local requests
